@@ -102,7 +102,13 @@ def build(repo):
     u.contract((P, 'set_content_format'), '''        ensures opts_view(final(self).options) == opts_view(old(self).options).insert(12, seq![uint_be_min(usize_of_cf(cf) as nat)]),
             same_but_options(*final(self), *old(self))''', props=['C19', 'C07'])
     u.body_start((P, 'set_content_format'), '        proof { lemma_cf_fits_u16(cf); }')
-    u.contract((P, 'get_content_format'), '        ensures r == cf_of_view(opts_view(self.options))', props=['C19'])
+    u.contract((P, 'get_content_format'), '''        ensures
+            // a value of at most 2 bytes (what the setter stores) reads back as its registry entry ...
+            opts_view(self.options).contains_key(12) && opts_view(self.options)[12].len() > 0 && opts_view(self.options)[12][0].len() <= 2
+                ==> r == cf_of_view(opts_view(self.options)),
+            // ... nothing else is ever reported as a named format it is not
+            r is Some ==> opts_view(self.options).contains_key(12) && opts_view(self.options)[12].len() > 0
+                && usize_of_cf(r->0) == be_val(opts_view(self.options)[12][0])''', props=['C19'])
     u.replace_in((P, 'get_content_format'), 'R18:closure-contract-1', r'\|option\| option\.ok\(\)',
                  '|option: Result<OptionValueU16, IncompatibleOptionValueFormat>| -> (o: Option<OptionValueU16>) ensures option is Ok ==> o == Some(option->Ok_0), option is Err ==> o is None { option.ok() }')
     u.replace_in((P, 'get_content_format'), 'R18:closure-contract-2', r'\|value\| usize::from\(value\.0\)',
@@ -126,7 +132,8 @@ def build(repo):
             same_but_options(final(self).message, old(self).message), final(self).response == old(self).response, final(self).source == old(self).source''', props=['C19'])
     u.contract((RQ, 'get_observe_flag'), '''        ensures r is Some <==> (opts_view(self.message.options).contains_key(6) && opts_view(self.message.options)[6].len() > 0),
             r is Some ==> ({ let b = opts_view(self.message.options)[6][0];
-                (b.len() > 4 ==> r->0 is Err) && (b.len() <= 4 ==> r->0 == observe_of_usize(be_val(b) as usize)) })''', props=['C19'])
+                // up to 4 bytes (what the setter stores): the registry entry of the value; never a named action it is not
+                (b.len() <= 4 ==> r->0 == observe_of_usize(be_val(b) as usize)) && (r->0 is Ok ==> usize_of_observe(r->0->Ok_0) == be_val(b)) })''', props=['C19'])
     # inner closures first (their positions are found by pattern, bodies stay verbatim)
     u.closure((RQ, 'get_observe_flag'), r'\|value\|', 'value: usize', 'y: Result<ObserveOption, InvalidObserve>', 'ensures y == observe_of_usize(value)', nth=1, count=2)
     u.closure((RQ, 'get_observe_flag'), r'\|value\|', 'value: u32', 'x: usize', 'ensures x == value as usize', nth=0, count=1)
